@@ -123,3 +123,101 @@ func (w *SimWriter) Write(p []byte) (int, error) {
 	w.Buf = append(w.Buf, p...)
 	return len(p), nil
 }
+
+// SimPipe is a bounded in-memory pipe between two simulated tasks. Nothing in
+// it blocks for real: a full (empty) pipe makes the writer (reader) yield and
+// retry, so chunking is a consequence of the schedule. Either end can be
+// closed with an error.
+type SimPipe struct {
+	R      *Run
+	Cap    int
+	buf    []byte
+	wdone  bool
+	werr   error
+	rdone  bool
+	rerr   error
+	Moved  int // bytes that went through
+	Stalls int
+}
+
+func NewSimPipe(r *Run, capacity int) *SimPipe {
+	if capacity < 1 {
+		capacity = 1
+	}
+	return &SimPipe{R: r, Cap: capacity}
+}
+
+// taskBlocked marks the calling task as not worth scheduling until something changes.
+func taskBlocked() {
+	r := cur.Load()
+	if r == nil || r.sched == nil {
+		return
+	}
+	if t := r.sched.lookup(); t != nil {
+		r.sched.mu.Lock()
+		t.spin = true
+		r.sched.mu.Unlock()
+	}
+}
+
+func (p *SimPipe) Write(b []byte) (int, error) {
+	n := 0
+	for len(b) > 0 {
+		Yield("pipe:write")
+		if p.rdone {
+			err := p.rerr
+			if err == nil {
+				err = io.ErrClosedPipe
+			}
+			return n, err
+		}
+		if p.wdone {
+			return n, io.ErrClosedPipe
+		}
+		room := p.Cap - len(p.buf)
+		if room <= 0 {
+			p.Stalls++
+			taskBlocked()
+			continue
+		}
+		k := room
+		if k > len(b) {
+			k = len(b)
+		}
+		p.buf = append(p.buf, b[:k]...)
+		b = b[k:]
+		n += k
+		p.Moved += k
+		MutexUnlocked() // wake tasks waiting on the pipe
+	}
+	return n, nil
+}
+
+func (p *SimPipe) Read(b []byte) (int, error) {
+	for {
+		Yield("pipe:read")
+		if p.rdone {
+			return 0, io.ErrClosedPipe
+		}
+		if len(p.buf) > 0 {
+			k := copy(b, p.buf)
+			p.buf = p.buf[k:]
+			MutexUnlocked()
+			return k, nil
+		}
+		if p.wdone {
+			if p.werr != nil {
+				return 0, p.werr
+			}
+			return 0, io.EOF
+		}
+		p.Stalls++
+		taskBlocked()
+	}
+}
+
+// CloseWrite ends the stream; err == nil is a clean EOF for the reader.
+func (p *SimPipe) CloseWrite(err error) { p.wdone, p.werr = true, err; MutexUnlocked() }
+
+// CloseRead makes further writes fail with err (io.ErrClosedPipe if nil).
+func (p *SimPipe) CloseRead(err error) { p.rdone, p.rerr = true, err; MutexUnlocked() }
